@@ -603,6 +603,8 @@ impl WebSocketClient {
             },
         };
 
+        #[cfg(feature = "verif-hooks")]
+        crate::verif::probe_async(&format!("cm_received:{id}")).await;
         let response = received?;
         pending_guard.disarm();
         Self::validate_response(id, response)
